@@ -81,7 +81,9 @@ func runConfig(repo, goos, goarch string, f propFunc, r *Report) {
 			}
 		}
 	}
+	p.ModGraph() // also enables caller-inherited facts (ssah.go:FactsAt)
 	f(p, r)
+	factGraph = nil
 	if p.cg != nil {
 		r.CGNodes = len(p.cg.Nodes)
 	}
